@@ -30,10 +30,20 @@ PROPS = {
 }
 
 
-def mc_cfg(spec, depth, fee, pf, seeded, amounts, qtys, instants, opids, cashops, invs=(), props=(), view=True):
+SENSITIVITY = {      # seeded defect in the MODEL -> the property TLC must then report violated
+    "C01": [("sell-commission-not-debited", "C01_Ledger", "INVARIANT", "FALSE")],
+    "C02": [("delete-when-nonpositive", "C02_Holdings", "INVARIANT", "FALSE")],
+    "C04": [("fill-when-closed", "C04_Step", "PROPERTY", "FALSE"), ("buys-first", "C04_Step", "PROPERTY", "FALSE")],
+    "C05": [("fill-at-mid", "C05_Fills", "PROPERTY", "FALSE")],
+    "C15": [("refusal-debits", "C15_Rejected", "PROPERTY", "TRUE")],
+}
+
+
+def mc_cfg(spec, depth, fee, pf, seeded, amounts, qtys, instants, opids, cashops, invs=(), props=(), view=True, bug="none"):
     s = """SPECIFICATION %s
 CONSTANTS
   Assets = {"A", "B"}
+  Bug = "@BUG@"
   MaxDepth = %s
   FeeChoice = %s
   PfLevel = %s
@@ -45,6 +55,7 @@ CONSTANTS
   CashOps = %s
 CHECK_DEADLOCK FALSE
 """ % (spec, depth, fee, pf, seeded, amounts, qtys, instants, opids, cashops)
+    s = s.replace("@BUG@", bug)
     if depth < 100:
         s += "CONSTRAINT Bound\n"
     if view:
@@ -198,6 +209,20 @@ def run(prop, replay_file=None):
             if not r.ok:
                 rep.machinery.append("the specification itself violates %s on instance %s (spec error, not a code defect)"
                                      % (r.violated, name))
+        # spec sensitivity: with ONE defect planted in the model, TLC must report this property violated
+        for bug, name, kind, cashops in SENSITIVITY.get(prop, []):
+            cfg = mc_cfg("Spec", 4, 3, "FALSE", "TRUE", "MCAmountsSmall", "MCQtys", "MCInstantsSmall", "MCPids", cashops,
+                         [name] if kind == "INVARIANT" else [], [name] if kind == "PROPERTY" else [], bug=bug)
+            with open(os.path.join(w, "sens.cfg"), "w") as fh:
+                fh.write(cfg)
+            try:
+                r = tlc.run(w, "MC_Broker", "sens.cfg", workers=16, timeout=1200)
+                rep.cov.setdefault("spec_sensitivity", {})[bug] = r.violated
+                if r.violated != name:
+                    rep.machinery.append("sensitivity: with the seeded model defect '%s' TLC reported %s instead of %s violated"
+                                         % (bug, r.violated, name))
+            except tlc.TLCError as e:
+                rep.machinery.append("TLC failed on the sensitivity run '%s': %s" % (bug, str(e)[-800:]))
         if prop == "C01":
             apalache_ledger(rep, w)
         if prop == "C04":
@@ -206,7 +231,7 @@ def run(prop, replay_file=None):
             # assumption TLC must find the behaviour in which the clock never reaches exchange hours.
             for spec_name, expect_ok in (("Spec", True), ("SpecNoFairness", False)):
                 with open(os.path.join(w, "live.cfg"), "w") as fh:
-                    fh.write('SPECIFICATION %s\nCONSTANTS\n  Assets = {%s}\n  MaxOrders = %d\nINVARIANT C04_Status\n'
+                    fh.write('SPECIFICATION %s\nCONSTANTS\n  Assets = {%s}\n  Bug = "none"\n  MaxOrders = %d\nINVARIANT C04_Status\n'
                              'PROPERTY C04_EventuallyFilled\nPROPERTY C04_FilledForGood\nPROPERTY C04_Step\nCHECK_DEADLOCK FALSE\n'
                              % (spec_name, '"A"' if t == "quick" or not expect_ok else '"A", "B"', 2 if t == "quick" or not expect_ok else 3))
                 try:
@@ -393,7 +418,7 @@ def validate_traces(w, traces, timeout=3000, assets=("A", "B", "C")):
     path = os.path.join(w, "batch.json")
     broker_random.write_batch(traces, path)
     with open(os.path.join(w, "BrokerTrace.cfg"), "w") as fh:
-        fh.write('SPECIFICATION TraceSpec\nCONSTANTS\n  Assets = {%s}\nCHECK_DEADLOCK FALSE\n' % ", ".join('"%s"' % a for a in assets))
+        fh.write('SPECIFICATION TraceSpec\nCONSTANTS\n  Assets = {%s}\n  Bug = "none"\nCHECK_DEADLOCK FALSE\n' % ", ".join('"%s"' % a for a in assets))
     r = tlc.run(w, "BrokerTrace", "BrokerTrace.cfg", workers=1, env={"QSV_TRACE": path}, timeout=timeout)
     os.remove(path)
     if r.violated == "evaluation-error" and "Overflow when computing" in r.out:
